@@ -111,6 +111,10 @@ static mut EXP_FROM: usize = 0;
 static mut LAST_LOAD: u64 = 0;
 static mut LAST_LOAD_VALID: bool = false;
 static mut OK_WRITES: u32 = 0;
+/// successful compare-exchanges since reset (counted even without an expectation)
+static mut CAS_OK: u32 = 0;
+/// when set, events are counted but not logged (harnesses with many retries)
+static mut NOLOG: bool = false;
 
 pub fn reset(max_cas_fails: u32) {
     unsafe {
@@ -122,7 +126,16 @@ pub fn reset(max_cas_fails: u32) {
         EXP_ON = false;
         LAST_LOAD_VALID = false;
         OK_WRITES = 0;
+        CAS_OK = 0;
+        NOLOG = false;
     }
+}
+/// count events only (no log): for harnesses that let the environment refuse many exchanges
+pub fn count_only() {
+    unsafe { NOLOG = true }
+}
+pub fn cas_ok() -> u32 {
+    unsafe { CAS_OK }
 }
 
 /// From now on every compare-exchange must be an attempt of "cell += delta".
@@ -166,6 +179,11 @@ pub fn cas_fails() -> u32 {
     unsafe { CAS_FAILS }
 }
 fn push(mut e: Ev) {
+    unsafe {
+        if NOLOG {
+            return;
+        }
+    }
     e.locked = watched_locked();
     unsafe {
         assert!(N < MAXLOG, "VERIF-ENV: event log overflow");
@@ -228,10 +246,18 @@ pub fn env_cas_weak(c: &AtomicU64, current: u64, new: u64, s: Ordering, f: Order
                 crate::__vsup::feq(f64::from_bits(new), f64::from_bits(current) + EXP_DELTA),
                 "atomic f64 add: new value is not loaded + delta"
             );
-            LAST_LOAD_VALID = false;
             if ok {
                 OK_WRITES += 1;
+                LAST_LOAD_VALID = false;
+            } else {
+                // a failed exchange returns the value it found: that is a read of the cell and may
+                // legitimately serve as the expected value of the next attempt
+                LAST_LOAD = v;
+                LAST_LOAD_VALID = true;
             }
+        }
+        if ok {
+            CAS_OK += 1;
         }
     }
     if ok {
@@ -249,6 +275,15 @@ pub fn env_cas_weak(c: &AtomicU64, current: u64, new: u64, s: Ordering, f: Order
     } else {
         Err(v)
     }
+}
+
+/// strong compare-exchange: like the weak one but it fails only because the cell holds another value
+pub fn env_cas_strong(c: &AtomicU64, current: u64, new: u64, s: Ordering, f: Ordering) -> Result<u64, u64> {
+    let r = env_cas_weak(c, current, new, s, f);
+    if let Err(v) = r {
+        kani::assume(v != current);
+    }
+    r
 }
 
 // ---- i64 cells ------------------------------------------------------------------------------
